@@ -142,7 +142,105 @@ fn short(s: &str, n: usize) -> String {
     out
 }
 
+/// C02, data level: remove / rename one *referenced* definition in the merged database
+/// (project definitions + LIDER catalogue) that `Model::try_from` reads, one at a time.
+pub fn run_dbfaults(job: &Value) -> JobOutput {
+    let rel = job["file"].as_str().unwrap_or("").to_string();
+    let (kind, text) = text_of(&rel);
+    let parsed = contain(|| match kind {
+        FileKind::Ctehexml => hulc::ctehexml::parse_with_catalog(&text),
+        _ => {
+            let mut data = hulc::bdl::Data::new(&text)?;
+            let cat = catalog();
+            data.db.materials.extend(cat.materials);
+            data.db.wallcons.extend(cat.wallcons);
+            data.db.wincons.extend(cat.wincons);
+            data.db.glasses.extend(cat.glasses);
+            data.db.frames.extend(cat.frames);
+            Ok(hulc::ctehexml::CtehexmlData { bdldata: data, ..Default::default() })
+        }
+    });
+    let data = match parsed {
+        Ok(Ok(d)) => d,
+        _ => return JobOutput { result: json!({"class":"n/a","cases":[]}), tainted: false },
+    };
+    // names actually referenced by the project
+    let db = &data.bdldata.db;
+    let mut used_wallcons: Vec<String> = data.bdldata.walls.iter().map(|w| w.cons.clone()).collect();
+    used_wallcons.sort();
+    used_wallcons.dedup();
+    let mut used_wincons: Vec<String> = data.bdldata.windows.iter().map(|w| w.cons.clone()).collect();
+    used_wincons.sort();
+    used_wincons.dedup();
+    let mut used_mats: Vec<String> = used_wallcons.iter().filter_map(|c| db.wallcons.get(c)).flat_map(|c| c.material.clone()).collect();
+    used_mats.sort();
+    used_mats.dedup();
+    let mut used_glass: Vec<String> = used_wincons.iter().filter_map(|c| db.wincons.get(c)).map(|c| c.glass.clone()).collect();
+    used_glass.sort();
+    used_glass.dedup();
+    let mut used_frames: Vec<String> = used_wincons.iter().filter_map(|c| db.wincons.get(c)).map(|c| c.frame.clone()).collect();
+    used_frames.sort();
+    used_frames.dedup();
+    let mut cases = vec![];
+    let mut run_case = |coll: &str, name: &str, d: hulc::ctehexml::CtehexmlData| {
+        let r = contain(|| Model::try_from(&d));
+        let mut c = json!({"coll": coll, "name": name});
+        match r {
+            Err(p) => {
+                c["class"] = json!("panic");
+                c["site"] = serde_json::to_value(&p.site).unwrap();
+            }
+            Ok(Err(_)) => {
+                c["class"] = json!("err");
+            }
+            Ok(Ok(m)) => {
+                c["class"] = json!("ok");
+                let v = serde_json::to_value(&m).unwrap_or(Value::Null);
+                let broken = closure::closure_violations(&v);
+                c["broken_kinds"] = json!(broken.iter().map(|b| format!("{}.{}:{}", b.coll, b.link, b.why)).collect::<std::collections::BTreeSet<_>>());
+                c["broken"] = json!(broken.iter().take(3).map(|b| format!("{}.{} of {} -> {} ({})", b.coll, b.link, b.id, b.target, b.why)).collect::<Vec<_>>());
+                c["check_n"] = json!(bemodel::check(&m).len());
+            }
+        }
+        cases.push(c);
+    };
+    for n in &used_mats {
+        let mut d = data.clone();
+        if d.bdldata.db.materials.remove(n).is_some() {
+            run_case("materials", n, d);
+        }
+    }
+    for n in &used_wallcons {
+        let mut d = data.clone();
+        if d.bdldata.db.wallcons.remove(n).is_some() {
+            run_case("wallcons", n, d);
+        }
+    }
+    for n in &used_wincons {
+        let mut d = data.clone();
+        if d.bdldata.db.wincons.remove(n).is_some() {
+            run_case("wincons", n, d);
+        }
+    }
+    for n in &used_glass {
+        let mut d = data.clone();
+        if d.bdldata.db.glasses.remove(n).is_some() {
+            run_case("glasses", n, d);
+        }
+    }
+    for n in &used_frames {
+        let mut d = data.clone();
+        if d.bdldata.db.frames.remove(n).is_some() {
+            run_case("frames", n, d);
+        }
+    }
+    JobOutput { result: json!({"class":"dbfaults","cases":cases}), tainted: false }
+}
+
 pub fn run(ctx: &mut WorkerCtx, job: &Value) -> JobOutput {
+    if job["dbfaults"] == true {
+        return run_dbfaults(job);
+    }
     let rel = job["file"].as_str().unwrap_or("").to_string();
     let edit: Edit = serde_json::from_value(job["edit"].clone()).unwrap_or(Edit::Intact);
     let level = job["level"].as_u64().unwrap_or(1);
